@@ -415,10 +415,10 @@ def run_shard(spec, emit):
 
     # (b) real runs with reports switched on
     if shard % 4 == 0 or tier == "thorough":
-        cli_part(rng, emit, scratch, tier)
+        cli_part(rng, emit, scratch, tier, shard)
 
 
-def cli_part(rng, emit, scratch, tier):
+def cli_part(rng, emit, scratch, tier, shard=0):
     import yaml
 
     from vmon.gen import docs
@@ -428,7 +428,7 @@ def cli_part(rng, emit, scratch, tier):
     for i in range(runs):
         report_dir = os.path.join(scratch, f"cli-reports-{i}")
         os.makedirs(report_dir, exist_ok=True)
-        preserve = rng.random() < 0.5
+        preserve = ((shard // 4) + i) % 2 == 0  # both settings are exercised in every run of the check
         rules = docs.LINK_RULES + [
             {"when": {"method": "GET", "path_regex": "^/users/", "nth": 2}, "then": {"status": 500, "body": "it's 'bad': \"x\"\n# y", "content_type": "text/plain"}},
             {"when": {"method": "GET", "path_regex": "^/users/", "nth": 4}, "then": {"close": True}},
@@ -454,12 +454,33 @@ def cli_part(rng, emit, scratch, tier):
                     emit.count("vcr_files_parsed")
                     if count != delivered:
                         emit.viol("C16/vcr-exchange-count:cli", f"{count} interactions in the cassette, {delivered} delivered to the reporters", context)
+                    # the option that asks for byte-exact bodies is honoured: bodies are base64 of bytes the API really sent
+                    sent_bodies = {r.get("response_body", "").encode("latin-1") for r in result.server_log}
+                    for item in parsed.get("http_interactions") or []:
+                        body = (item.get("response") or {}).get("body")
+                        if body is None:
+                            continue
+                        emit.count("cli_vcr_bodies_checked")
+                        if preserve:
+                            if "base64_string" not in body:
+                                emit.viol("C16/preserve-bytes-not-honoured:vcr", f"response body written as {sorted(body)}", context)
+                            elif base64.b64decode(body["base64_string"]) not in sent_bodies:
+                                emit.viol("C16/vcr-response-body-bytes-differ:cli", f"{body['base64_string'][:60]!r} is none of the bodies the API sent", context)
+                        elif "string" not in body:
+                            emit.viol("C16/vcr-body-shape-without-preserve-bytes", f"response body written as {sorted(body)}", context)
                 elif name.endswith(".json") or name.endswith(".har"):
                     parsed = json.loads(data.decode("utf-8"))
                     count = len(parsed["log"]["entries"])
                     emit.count("har_files_parsed")
                     if count != delivered:
                         emit.viol("C16/har-exchange-count:cli", f"{count} entries in the HAR file, {delivered} delivered to the reporters", context)
+                    for entry in parsed["log"]["entries"]:
+                        content = (entry.get("response") or {}).get("content") or {}
+                        if entry["response"].get("status") and content.get("text") is not None:
+                            if preserve and content.get("encoding") != "base64":
+                                emit.viol("C16/preserve-bytes-not-honoured:har", f"content encoding {content.get('encoding')!r}", context)
+                            if not preserve and content.get("encoding") == "base64":
+                                emit.viol("C16/har-body-shape-without-preserve-bytes", "content encoding base64", context)
                 elif name.endswith(".xml"):
                     ET.fromstring(data)
                     emit.count("junit_files_parsed")
